@@ -659,6 +659,59 @@ Proof.
     + clear. induction l; simpl; constructor; [exists 0%Z; simpl; ring|assumption].
 Qed.
 
+(* whatever is read first and in whatever order: once a longitude is stored it is the wrapped one *)
+Definition c01_lon_ok (derived : list Q) (s : c01_lazy) : Prop :=
+  match lz_lon s with
+  | None => True
+  | Some l => Forall (fun x => -180 <= x /\ x <= 180) l /\
+              Forall2 (fun a b => exists k : Z, b == a - 360 * inject_Z k) derived l
+  end.
+
+Theorem c01_access_order_lon derived computed rs s0 :
+  Forall (fun x => -180 <= x) derived -> c01_lon_ok derived s0 ->
+  c01_lon_ok derived (c01_rd_run derived computed s0 rs).
+Proof.
+  intros Hd. unfold c01_rd_run. revert s0. induction rs as [|r rs IH]; intros s0 H0; simpl; [exact H0|].
+  apply IH. unfold c01_rd_step.
+  destruct r; try exact H0; try (destruct (lz_areas s0); exact H0);
+    (destruct (lz_lon s0) eqn:E; [exact H0|]; unfold c01_lon_ok; simpl; apply c01_wrap_all_spec; exact Hd).
+Qed.
+
+(* a read of node_lon or node_lat, anywhere in the history, leaves a longitude stored *)
+Theorem c01_access_order_lon_present derived computed rs s0 :
+  (In RdNodeLon rs \/ In RdNodeLat rs) -> lz_lon (c01_rd_run derived computed s0 rs) <> None.
+Proof.
+  unfold c01_rd_run. revert s0. induction rs as [|r rs IH]; intros s0 H; [destruct H as [[]|[]]|]. simpl.
+  assert (Hkeep : forall rs' s, lz_lon s <> None -> lz_lon (fold_left (c01_rd_step derived computed) rs' s) <> None).
+  { induction rs' as [|r' rs' IH']; intros s Hs; simpl; [exact Hs|]. apply IH'. unfold c01_rd_step.
+    destruct r'; try exact Hs; try (destruct (lz_areas s); exact Hs); (destruct (lz_lon s) eqn:E; [rewrite E; discriminate|simpl; discriminate]). }
+  destruct r.
+  1,2: apply Hkeep; unfold c01_rd_step; destruct (lz_lon s0) eqn:E; [rewrite E|simpl]; discriminate.
+  all: apply IH; destruct H as [[H|H]|[H|H]]; try discriminate H; [left; exact H|right; exact H].
+Qed.
+
+(* areas (and longitudes) the source supplied are never replaced, whatever is read afterwards *)
+Theorem c01_supplied_kept derived computed rs s0 :
+  (forall a, lz_areas s0 = Some a -> lz_areas (c01_rd_run derived computed s0 rs) = Some a) /\
+  (forall l, lz_lon s0 = Some l -> lz_lon (c01_rd_run derived computed s0 rs) = Some l).
+Proof.
+  unfold c01_rd_run. revert s0. induction rs as [|r rs IH]; intros s0; simpl; [split; auto|].
+  destruct (IH (c01_rd_step derived computed s0 r)) as [IA IL]. split.
+  - intros a Ha. apply IA. unfold c01_rd_step. destruct r; try exact Ha;
+      try (destruct (lz_lon s0); exact Ha); rewrite Ha; exact Ha.
+  - intros l Hl. apply IL. unfold c01_rd_step. destruct r; try exact Hl;
+      try (destruct (lz_areas s0); exact Hl); rewrite Hl; exact Hl.
+Qed.
+
+Example c01_access_order_nonvacuous :
+  lz_lon (c01_rd_run [280 # 1; 10 # 1] [1 # 2] {| lz_lon := None; lz_areas := Some [7 # 1] |}
+                     [RdOther; RdNodeLat; RdFaceJacobian; RdNodeLon; RdFaceAreas])
+    = Some (c01_wrap_all [280 # 1; 10 # 1])
+  /\ lz_areas (c01_rd_run [280 # 1; 10 # 1] [1 # 2] {| lz_lon := None; lz_areas := Some [7 # 1] |}
+                     [RdOther; RdNodeLat; RdFaceJacobian; RdNodeLon; RdFaceAreas]) = Some [7 # 1]
+  /\ Forall2 Qeq (c01_wrap_all [280 # 1; 10 # 1]) [(-80) # 1; 10 # 1].
+Proof. vm_compute. repeat split; repeat constructor. Qed.
+
 Local Close Scope Q_scope.
 Local Open Scope Z_scope.
 
